@@ -704,6 +704,9 @@ def gen_payload(rng, lists=False):
         if rng.random() < 0.15:
             q["e"] = {}
         p["p"] = q
+    if rng.random() < 0.15:
+        # a payload field whose name is blank-padded (a CSV header with padded columns), mostly next to its stripped twin
+        p[rng.choice(["v ", " w", " v ", "q "])] = gen_leaf(rng)
     if lists and rng.random() < 0.4:
         p["l"] = [gen_leaf(rng) for _ in range(rng.randint(0, 3))]
     if lists and rng.random() < 0.2:
